@@ -308,7 +308,7 @@ fn marginals(run: &Run, n: usize, r: usize) {
             };
             // bounded integers: every value; unit floats: split at every jump of the output; raw words
             // cannot be weighed exactly by this enumeration and leave the case to the frequency test
-            let decl = Decl { max_words: 0, max_units: 4 * n * r, jb: 1, jw: 1, gu: [1, 1, 1, 1], gw: 1, discrete: true };
+            let decl = Decl { max_words: 0, max_units: 4 * n * r, jb: 1, jw: 1, gu: [1, 1, 1, 1], gw: 1, discrete: true, max_leaves: 2_000_000, max_runs: 50_000_000 };
             let ex = Explorer::new(&f, decl).explore();
             if !ex.panics.is_empty() {
                 let (m, s) = &ex.panics[0];
@@ -358,9 +358,12 @@ fn frequencies(run: &Run) {
     // cells tested: per n, n label totals and (n ≤ 17) n² position × label cells
     let cells: f64 = ns.iter().map(|&n| (n + if n <= 17 { n * n } else { 0 }) as f64).sum();
     let l = (2.0 * cells / 1e-12).ln();
-    run.bound("frequency test", format!("{} draws per length over {} seeds, lengths {:?}, {} cells, Bernstein bound with total false-alarm probability 1e-12", total, seeds, ns, cells));
+    run.bound("frequency test", format!("{} draws per length over {} seeds, lengths {:?}, {} cells, Bernstein bound per cell and Pearson statistic per length, total false-alarm probability 1e-12; lengths >= 1000 get 20 times the draws", total, seeds, ns, cells));
     ns.par_iter().for_each(|&n| {
         let data = labels(n, 0);
+        // the long inputs get 20 times as many draws: a bias of relative size n/65536 per position
+        // (a 16-bit index generator, say) is only visible in the aggregate
+        let total = if n >= 1000 { 20 * total } else { total };
         let per_seed = (total / seeds).max(1);
         let r = (per_seed + n - 1) / n;
         let mut tot = vec![0u64; n];
@@ -423,6 +426,21 @@ fn frequencies(run: &Run) {
                         run.violate("bootstrap/position-not-equally-likely/frequencies", || format!("bootstrap of {} elements: output position {} took data position {} in {} of {} draws, expected {:.1} ± {:.1}", n, i, j, pos[i * n + j], dn, dn * p, t2));
                     }
                 }
+            }
+        }
+        // aggregate: Pearson's statistic over the data positions. Under equal likelihood it is
+        // chi-square with n-1 degrees of freedom up to an error that is negligible at expected counts
+        // of 500 and more; bound P(X - k >= 2 sqrt(k x) + 2x) <= e^-x (Laurent-Massart), x = ln(17e12)
+        if ok && n >= 8 {
+            let e = draws as f64 * p;
+            let chi: f64 = tot.iter().map(|&c| (c as f64 - e) * (c as f64 - e) / e).sum();
+            let k = (n - 1) as f64;
+            let x = (17.0f64 * 1e12).ln();
+            let limit = k + 2.0 * (k * x).sqrt() + 2.0 * x + 0.02 * k; // + 2 % for the approximation
+            run.extra(&format!("pearson_n{}", n), serde_json::json!({"draws": draws, "statistic": chi, "dof": n - 1, "limit": limit}));
+            if chi > limit {
+                ok = false;
+                run.violate("bootstrap/position-not-equally-likely/frequencies", || format!("bootstrap of {} elements, {} draws on {} seeded streams: Pearson statistic over the data positions {:.1}, expected {} ± {:.0}, limit {:.1} (false-alarm probability 1e-12 overall)", n, draws, seeds, chi, n - 1, (2.0 * k).sqrt(), limit));
             }
         }
         if ok {
